@@ -279,41 +279,60 @@ def last_layer(db, rep):
                f'horner_eval: result leaves {sorted(ret)[:8]}, iterates coefficients in reverse', h.loc(), db.config)
 
 
-# rejecting comparisons reachable from fri_verify (other than the error arms of lookups and `?`), by function and
-# relation: honest inputs pass all of them; anything else is an unexpected rejection condition (completeness)
-EXPECTED_REJECTIONS = {
-    ('swiftness_fri::fri::fri_verify', 'EQ'): 'values = queries; last layer = 2^bound',
-    ('swiftness_fri::layer::compute_coset_elements', 'NONEMPTY'): 'a sibling leaf is needed and none is left (conditional: only for positions not covered by a query)',
-    ('swiftness_fri::formula::fri_formula', 'EQ'): 'coset length = 2 (holds by construction)',
-    ('swiftness_fri::formula::fri_formula4', 'EQ'): 'coset length = 4 (holds by construction)',
-    ('swiftness_fri::formula::fri_formula8', 'EQ'): 'coset length = 8 (holds by construction)',
-    ('swiftness_fri::formula::fri_formula16', 'EQ'): 'coset length = 16 (holds by construction)',
-    ('swiftness_fri::last_layer::verify_last_layer', 'EQ'): 'Horner evaluation = folded value',
-}
-CONDITIONAL_ONLY = {('swiftness_fri::layer::compute_coset_elements', 'NONEMPTY')}
+# rejecting comparisons reachable from fri_verify (other than the error arms of lookups and `?`), classified by WHAT they
+# compare, in fri_verify's own terms (a1 = queries, a2 = commitment, a3 = decommitment, a4 = witness), and by the call
+# chain they are reached through -- not by the function the comparison happens to be written in (a check moved into a
+# helper is the same check). Honest inputs pass all of these; anything else is an unexpected rejection (completeness).
+FORMULA = 'swiftness_fri::formula::fri_formula'
+
+
+def classify_rejection(g):
+    import re
+    chain = [v.split('@')[0] for v in g.via if '@' in v] + [g.fn]
+    sides = (set(g.lhs), set(g.rhs))
+    if g.rel == 'EQ' and {'len(a1)'} in sides and {'len(a3.values)'} in sides:
+        return 'values=queries', g.covers == 'all', 'one decommitted value per query'
+    if g.rel == 'EQ' and {'len(a2.last_layer_coefficients)'} in sides and \
+            any('a2.config.log_last_layer_degree_bound' in x and any(y.startswith('op:pow') for y in x) for x in sides):
+        return 'last-layer=2^bound', g.covers == 'all', 'last layer has 2^bound coefficients'
+    if g.rel == 'NONEMPTY' and any(x.startswith('a4.') and x.endswith('.leaves') for x in g.lhs | g.rhs):
+        return 'sibling-needed', None, 'a sibling leaf is needed and none is left (only for positions not covered by a query)'
+    lits = [x for sd in sides for x in sd if re.fullmatch(r'lit:(2|4|8|16)', x)]
+    if g.rel == 'EQ' and len(lits) == 1 and {lits[0]} in sides and any(x.startswith('len(') for x in g.lhs | g.rhs):
+        kk = lits[0][4:]
+        want = FORMULA + (kk if kk != '2' else '')
+        if want in chain:
+            return f'coset-length={kk}', True, f'coset length = {kk} in the {kk}-ary fold (holds by construction)'
+    if g.rel == 'EQ' and any(c.endswith('::last_layer::verify_last_layer') for c in chain) and \
+            any(x.startswith('a2.last_layer_coefficients') for x in g.lhs | g.rhs):
+        return 'horner=folded', True, 'Horner evaluation of the last layer = folded value'
+    return None, False, ''
 
 
 def no_extra_rejections(db, rep):
     gs = dataflow.effective_guards(db, common.FRI_VERIFY)
-    seen = {}
+    classes = {}
     for g in gs:
         if getattr(g, 'kind', None) in ('discr', 'bounds') or g.reject == 'panic':
             continue
         if not g.fn.startswith('swiftness_fri::'):
             continue    # rejections inside the commitment crate are the business of C04/C05
-        seen.setdefault((g.fn, g.rel), []).append(g)
-    for key, lst in sorted(seen.items()):
-        ok = key in EXPECTED_REJECTIONS
-        why = EXPECTED_REJECTIONS.get(key, '')
-        if ok and key in CONDITIONAL_ONLY:
-            # must stay conditional inside its function: an unconditional version rejects honest full cosets
-            fn = db.fns[key[0]]
+        cls, ok, why = classify_rejection(g)
+        if cls == 'sibling-needed':
+            # must stay conditional inside its function: an unconditional version rejects honest fully queried cosets
+            fn = db.fns[g.fn]
             fl = dataflow.Flow(db, fn)
-            own = [x for x in dataflow.own_guards(db, fn, fl) if x.rel == key[1] and getattr(x, 'kind', None) not in ('discr', 'bounds')]
-            ok = all(x.covers == 'some' for x in own)
-        g = lst[0]
-        rep.ob('C06.complete', f'{key[0]}|{key[1]}', ok,
+            own = [x for x in dataflow.own_guards(db, fn, fl) if x.rel == 'NONEMPTY' and getattr(x, 'kind', None) not in ('discr', 'bounds')]
+            ok = bool(own) and all(x.covers == 'some' for x in own)
+        key = cls or f'{g.fn}|{g.rel}'
+        if key in classes and classes[key][0] is False:
+            continue
+        if key not in classes or not ok:
+            classes[key] = (ok, cls, why, g)
+    for key, (ok, cls, why, g) in sorted(classes.items()):
+        rep.ob('C06.complete', key, bool(ok),
                (f'expected rejection: {why}' if ok else
-                f'unexpected rejection condition {key[1]} in {key[0].split("::")[-1]} reachable from fri_verify: honest FRI instances may be rejected'),
+                (f'rejection "{why}" is no longer conditional / complete' if cls else
+                 f'unexpected rejection condition {g.key()[:120]} in {g.fn.split("::")[-1]} reachable from fri_verify: honest FRI instances may be rejected')),
                db.fns[g.fn].loc(g.line), db.config)
-    rep.floor('C06.complete', 'rejecting comparisons of the fri crate reachable from fri_verify', len(seen), 6)
+    rep.floor('C06.complete', 'kinds of rejecting comparisons of the fri crate reachable from fri_verify', len(classes), 5)
